@@ -34,5 +34,7 @@ CfgMatches == AtCompute =>
                    alg |-> result.opts.alg, sw |-> result.opts.sw, dn |-> result.opts.dn]
 \* C06: same layer and position for every label as a fresh engine on fresh labels
 C06_Pure == AtCompute => Last.res = Last.ref
+\* the same against a process with no history at all (a layout must not depend on what the process computed before)
+C06_PureOfProcessHistory == AtCompute => (Last.err0 = "" /\ Last.res = Last.ref0)
 C06_Defined == AtCompute => Last.err = ""
 =============================================================================
